@@ -27,6 +27,8 @@ type wdSlot struct {
 	busy atomic.Int32
 	goid int64
 	run  atomic.Pointer[seqRun]
+	// constructing != 0: the worker is inside client.VerifNewInFlight for that N (no history yet)
+	constructing atomic.Int32
 }
 
 func (s *wdSlot) enter() { s.seq.Add(1); s.busy.Store(1) }
@@ -117,7 +119,7 @@ const clientPkg = "github.com/datastax/go-cassandra-native-protocol/client."
 
 // inspectGoroutine dumps all stacks and classifies goroutine id.
 func inspectGoroutine(id int64) (state, stack string, blockedInLibrary bool) {
-	buf := make([]byte, 32<<20)
+	buf := make([]byte, 64<<20)
 	n := runtime.Stack(buf, true)
 	return classifyDump(string(buf[:n]), id)
 }
